@@ -119,6 +119,10 @@ func ceMain(args []string) {
 		if p.chance(1, 3) {
 			signTypes = append(signTypes, "other")
 		}
+		if p.chance(1, 3) {
+			// listed: the type in another case, with a blank, a prefix of it: none of these is the type
+			signTypes = append(signTypes, strings.ToUpper(ty), ty+" ", "T", "Audit", "aud")
+		}
 		var signed []byte
 		ff := &cloudevents.FormatterFilter{Source: src, Schema: sch, Format: format, SignEventTypes: signTypes}
 		lateSigner := sg != 0 && p.chance(1, 3)
